@@ -90,6 +90,15 @@ class Ctx:
             return self.holds(rule, where, ok_detail, node)
         return self.violated(rule, where, node, bad_detail or ('NOT: ' + ok_detail))
 
+    def tri(self, good, bad, rule, where, node, ok_detail, bad_detail, und_detail=None):
+        """Three-valued obligation: `good` (the recognised correct form) -> holds; `bad` (a recognised wrong form) -> violated; neither -> undecided.
+        Structural rules use this instead of check(): not finding the form one knows is not a violation."""
+        if good:
+            return self.holds(rule, where, ok_detail, node)
+        if bad:
+            return self.violated(rule, where, node, bad_detail)
+        return self.undecided(rule, where, und_detail or ('form not recognised: ' + ok_detail), node if not isinstance(node, str) else None)
+
     def note(self, s):
         self.notes.append(s)
 
@@ -108,7 +117,7 @@ def match_known(prop, ob, known):
     return None
 
 
-def finish(ctx, floor, explanation, trusted_base, assumptions, level='other', extra=None):
+def finish(ctx, floor, explanation, trusted_base, assumptions, level='other', extra=None, rules=None):
     """Print the verdict, write evidence (and replay files), return the exit code."""
     known = load_known()
     prop = ctx.prop
@@ -117,6 +126,10 @@ def finish(ctx, floor, explanation, trusted_base, assumptions, level='other', ex
         if ob.status == 'violated':
             k = match_known(prop, ob, known)
             (knownhits if k else viol).append((ob, k))
+    silent = sorted(set(rules or ()) - {o.rule for o in ctx.obs})
+    for r_ in silent:
+        # a group that reports nothing must not pass silently: it is recorded as undecided (and counts against the floor like any undecided obligation)
+        ctx.obs.append(Ob(r_, prop, 'undecided', 'the obligation group produced no obligation at all on this tree (its anchor construct was not found)', '', 0))
     n_dec = sum(1 for o in ctx.obs if o.status in ('holds', 'violated'))
     n_hold = sum(1 for o in ctx.obs if o.status == 'holds')
     n_und = sum(1 for o in ctx.obs if o.status == 'undecided')
